@@ -15,4 +15,20 @@ theorem C05_src_scale (n : Nat) (normalized directed : Bool) :
   unfold bcScale Src.C05.scaleTrivial Src.C05.scaleNormalized Src.C05.scaleUndirected
   simp only [decide_eq_true_eq]
 
+/-- `accumulate_betweenness` with the coefficient, the dependency increment and the endpoint test taken from the source -/
+def accumulateSrc (bc : List Rat) (r : SSR) : List Rat :=
+  let (bc, _) := r.S.reverse.foldl (fun (acc : List Rat × List Rat) w =>
+    let (bc, delta) := acc
+    let coeff := Src.C05.accCoeff (getD0 delta w) (getD0 r.sigma w)
+    let delta := (r.P[w]?.getD []).foldl (fun delta v => delta.set v (getD0 delta v + Src.C05.accDelta (getD0 r.sigma v) coeff)) delta
+    let bc := if Src.C05.accSkipSource w r.source then bc.set w (getD0 bc w + getD0 delta w) else bc
+    (bc, delta)) (bc, List.replicate bc.length (0 : Rat))
+  bc
+
+/-- **Brandes' accumulation in the model is the source's**: `coeff = (1 + δ[w]) / σ[w]`, `δ[v] += σ[v]·coeff`, and the
+    source is never credited -/
+theorem C05_src_accumulate (bc : List Rat) (r : SSR) : accumulate bc r = accumulateSrc bc r := by
+  unfold accumulate accumulateSrc Src.C05.accCoeff Src.C05.accDelta Src.C05.accSkipSource
+  simp only [bne_iff_ne, ne_eq, decide_not, Bool.not_eq_eq_eq_not, Bool.not_true, decide_eq_false_iff_not]
+
 end Graphrs
